@@ -65,7 +65,7 @@ def big_term(rng, ids, depth):
     if depth <= 0 or k < 0.22: return rng.choice(BIG_CONSTS) if (rng.random() < 0.6 or not ids) else _bvar(rng.choice(ids))
     if k < 0.3: return ANON
     if k < 0.62:
-        n = rng.choice([1, 2, 3, 5, 7])
+        n = rng.choice([1, 2, 3, 5, 7, 8, 9, 12])
         return cplx(rng.choice(["f", "g", "node"]), *[big_term(rng, ids, depth - 1 - (n > 3)) for _ in range(n)])
     n = rng.choice([1, 2, 4, 6, 9, 12])
     es = [big_term(rng, ids, depth - 1 - (n > 3)) for _ in range(n)]
